@@ -419,6 +419,54 @@ example :
     ([MOp.ev (.update blk), MOp.ev (.update wep), MOp.complete].foldl RM.applyOp m0).table
       = [((6, 2), []), ((9, 3), [{ cidr := ⟨3232235840, 26, false⟩, typ := .blackhole }])] := by decide
 
+/-! ### the positive half: local blocks DO get a blackhole -/
+
+/-- what `updateRoutes` programs in the blackhole class: exactly one blackhole target per entry of
+`localIPAMBlocks`. -/
+theorem updateRoutes_blackholes (m : RM) :
+    aget m.updateRoutes.table (m.classBlackhole, ifNone) =
+      some (m.localBlocks.map (fun e => ({ cidr := e.1, typ := .blackhole } : Target))) := by
+  unfold RM.updateRoutes
+  simp only []
+  split
+  · simp only [RM.setRoutes, aget_aset_beq]
+    simp [RM.classBlackhole, RM.classSameSubnet, ifParent, ifNone]
+  · simp only [RM.setRoutes, aget_aset_beq]
+    simp [RM.classBlackhole]
+
+/-- **local blocks get blackhole routes.**  A RouteUpdate that `routeIsLocalBlock` classifies as a
+local block is kept in `localIPAMBlocks` and, at the next `updateRoutes`, has a blackhole target for
+its destination in the manager's blackhole route class. -/
+theorem local_block_gets_blackhole (m : RM) (r : RouteUpdate) (h : routeIsLocalBlock m.pt r = true) :
+    ∃ ts, aget ((m.onRouteUpdate r).updateRoutes).table ((m.onRouteUpdate r).classBlackhole, ifNone) = some ts ∧
+      ({ cidr := r.dst, typ := .blackhole } : Target) ∈ ts := by
+  refine ⟨_, updateRoutes_blackholes _, ?_⟩
+  have hs := (onRouteUpdate_spec m r r.dst).2.2
+  simp only [if_true, blockOf, h] at hs
+  exact List.mem_map.2 ⟨(r.dst, r), aget_some_mem _ _ _ hs, rfl⟩
+
+/-- resolver ∘ manager: the route the resolver emits for a block of the LOCAL node (nothing else at
+its CIDR, not a single address) in a pool of the manager's type gets a blackhole. -/
+theorem local_block_blackholed (m : RM) (me : Nat) (nodes : List (Nat × NodeInfo)) (c : Cidr)
+    (pre : List (Cidr × RouteInfo)) (ri : RouteInfo)
+    (hpre : PlainAncestors pre) (hb : ri.block = some me) (hh : ri.hosts = []) (hr : ri.refs = [])
+    (hlen : c.len ≠ c.width) (hpt : (routeOfPath me nodes c (pre ++ [(c, ri)])).poolType = m.pt) :
+    let r := routeOfPath me nodes c (pre ++ [(c, ri)])
+    ∃ ts, aget ((m.onRouteUpdate r).updateRoutes).table ((m.onRouteUpdate r).classBlackhole, ifNone) = some ts ∧
+      ({ cidr := c, typ := .blackhole } : Target) ∈ ts := by
+  intro r
+  obtain ⟨h1, h3, h4⟩ := routeOfPath_local_block me nodes c pre ri hpre hb hh hr
+  have hlb : routeIsLocalBlock m.pt r = true := by
+    have hty : isType r tLocalWorkload = true := by
+      show (r.types &&& 4 == 4) = true
+      rcases h3 with h | h <;> (simp only [r]; rw [h]; decide)
+    simp only [routeIsLocalBlock, hty, Bool.true_and, show r.poolType = m.pt from hpt, beq_self_eq_true,
+      show r.localWorkload = false from h4, Bool.not_false, show r.dst = c from h1]
+    simpa using hlen
+  have := local_block_gets_blackhole m r hlb
+  rw [show r.dst = c from h1] at this
+  exact this
+
 /-! ## arrival order -/
 
 theorem agree_onEvent (m : RM) (sent : List (Cidr × RouteUpdate)) (e : Event) (h : Agree m sent) :
@@ -505,11 +553,38 @@ own address / a tunnel address / a workload ref at the very same CIDR (e.g. a bo
 are not `Tracked`; (ii) histories that contain workload endpoint updates (`Op.ok` excludes them; the
 property's quantifier — pools, node addresses and subnets, blocks and borrowed IPs — does not list
 them, but they interleave in a real Felix).  Both are exercised by the fresh-instance oracle on the
-real code only. -/
+real code only.
+The hypothesis `zeroHost c = false` excludes the two CIDRs 0.0.0.0/32 and ::/128: `flush` never sends a
+route for `emptyV4Addr.AsCIDR()` / `emptyV6Addr.AsCIDR()` ("Skip sending a route for an empty CIDR"),
+so nothing is claimed about them. -/
 theorem dirty_marking_complete_partial (me : Nat) (ops : List Op) (hok : ∀ op ∈ ops, op.ok) :
     let r := St.run { me := me } [] ops
     ∀ c n, Tracked r.1 c n → zeroHost c = false → aget r.2 c = some (r.1.route c) :=
   fun c n ht h0 => (run_inv ops _ _ hok (inv_init me)).cur c n ht h0
+
+/-- **route kind after any history (partial).**  `route_kind_correct` composed with
+`dirty_marking_complete_partial`: after ANY history of node, pool and block updates, for every CIDR
+`c` that carries a block / borrowed-address route of a REMOTE node `n` whose address is known, the
+RouteUpdate `u` the dataplane holds for `c` is such that the manager of `u`'s pool type (parent
+device known) keeps it and programs it directly via `n`'s address iff the pool is unencapsulated or
+(a covering pool is cross-subnet and `n` is in the local node's subnet) — evaluated on the resolver's
+CURRENT trie and node table, i.e. on the current datastore state (`Canon`).  `_partial` for the same
+two reasons as `dirty_marking_complete_partial`. -/
+theorem route_kind_after_history_partial (me : Nat) (ops : List Op) (hok : ∀ op ∈ ops, op.ok) (m : RM) :
+    let r := St.run { me := me } [] ops
+    ∀ c n ni, Tracked r.1 c n → zeroHost c = false → n ≠ r.1.me → aget r.1.nodes n = some ni →
+      ni.addrOf c.v6 ≠ 0 → m.parent = true → (r.1.route c).poolType = m.pt →
+      aget r.2 c = some (r.1.route c) ∧
+      aget (m.onRouteUpdate (r.1.route c)).routes c = some (r.1.route c) ∧
+      (m.targetOf (r.1.route c) = some (true, { cidr := c, typ := .noEncap, gw := ni.addrOf c.v6 }) ↔
+        (m.pt = ptNoEncap ∨ (pathCross (fullPath r.1.view c) = true ∧ nodeInOurSubnet c.v6 r.1.me r.1.nodes n = true))) := by
+  intro r c n ni ht h0 hn hnode hip hparent hpt
+  have inv := run_inv ops _ _ hok (inv_init me)
+  have hl : c.len ≤ c.width := inv.aux.l32 c (view_block_ne_empty _ n ht.1)
+  have hk := route_kind_correct m r.1.me r.1.nodes c
+    ((List.range c.len).map (fun l => (ancKey c l, r.1.view (ancKey c l)))) (r.1.view c) n ni
+    (plain_fullPath r.1 inv.aux c hl) ht.1 ht.2.1 ht.2.2 hn hnode hip hparent hpt
+  exact ⟨inv.cur c n ht h0, hk.1, hk.2.1⟩
 
 theorem view_wasSent (s : St) (k : Cidr) : (s.view k).wasSent = false := rfl
 
